@@ -72,12 +72,11 @@ class PrecipitationData:
 
 class TemperatureParameters:
     def __init__(self, *args):
-        self.setTemperatureParameters(*args)
         self._isIsothermal = True
+        self.setTemperatureParameters(*args)
 
     def setTemperatureParameters(self, *args):
         if len(args) == 2:
-            print(args)
             self.setTemperatureArray(*args)
         elif len(args) == 1:
             if callable(args[0]):
